@@ -173,9 +173,18 @@ func parseArgs(argStr string) []string {
 	var current strings.Builder
 	inQuote := false
 	quoteChar := rune(0)
+	depth := 0 // inside the parentheses / brackets of an argument that is itself a call or an index
 
 	for _, ch := range strings.TrimSpace(argStr) {
 		switch {
+		case (ch == '(' || ch == '[') && !inQuote:
+			depth++
+			current.WriteRune(ch)
+		case (ch == ')' || ch == ']') && !inQuote && depth > 0:
+			depth--
+			current.WriteRune(ch)
+		case ch == ',' && !inQuote && depth > 0:
+			current.WriteRune(ch)
 		case (ch == '"' || ch == '\'') && !inQuote:
 			inQuote = true
 			quoteChar = ch
@@ -296,6 +305,17 @@ func (v *Vue) evalFilter(ctx VueContext, seg pipeSegment, input any, isFirst, fr
 		args = append(args, input)
 	}
 	for _, argExpr := range seg.args {
+		// an argument may itself be a call of a registered function: double(add(1, 2))
+		if name := strings.TrimSpace(argExpr); helpers.IsFunctionCall(name) && strings.HasSuffix(name, ")") {
+			if _, known := v.funcMap[name[:strings.Index(name, "(")]]; known {
+				argVal, err := v.evalPipe(ctx, parsePipeExpr(name))
+				if err != nil {
+					return nil, err
+				}
+				args = append(args, argVal)
+				continue
+			}
+		}
 		argVal := v.resolveArgument(ctx, argExpr)
 		args = append(args, argVal)
 	}
